@@ -1,5 +1,6 @@
 import GN.Url.Params
 import GN.Url.ParamsLemmas
+import GN.Url.ParamsLemmas2
 
 /-! # C12 — URLSearchParams is the WHATWG ordered pair list and serialisation round-trips -/
 
@@ -62,6 +63,22 @@ theorem iter_live (sp : Params) (idx : Nat) :
   constructor
   · intro h; simp [iterNext, List.getElem?_eq_getElem h]
   · intro h; simp [iterNext, List.getElem?_eq_none h]
+
+/-- **set**: the code's loop (found flag, in-place write, Go's range-copy semantics) is the WHATWG `set`:
+the first pair with the name gets the value in place, later ones are removed, appended if there is none. -/
+theorem set_eq_spec (sp : Params) (name value : Bytes) : set sp name value = setSpec sp name value :=
+  set_eq_setSpec sp name value
+
+/-- **sort** is sorted by name, a permutation, and stable (pairs with equal names keep their order) -/
+theorem sort_spec (sp : Params) :
+    SortedByName (sort sp) ∧ (sort sp).Perm sp ∧
+    ∀ n : Bytes, (sort sp).filter (·.name == n) = sp.filter (·.name == n) :=
+  ⟨sort_sorted sp, sort_perm sp, sort_stable sp⟩
+
+/-- **toString then parse is the identity** on every list of pairs of byte strings (empty, non-ASCII, `+`, `%`,
+`&`, `=`, `?` included) — stated about the escape table as it is in url/escape.go now. -/
+theorem parse_serialize_id (l : Params) : parse (serialize l) = l :=
+  parse_serialize table_escapes_specials l
 
 /-- non-vacuity: a list with duplicates, empty and reserved names -/
 example : delete [⟨[97], [49]⟩, ⟨[], [43]⟩, ⟨[97], [50]⟩] [97] (some [49]) = [⟨[], [43]⟩, ⟨[97], [50]⟩] ∧
